@@ -139,6 +139,7 @@ type UnitGen struct {
 	typedFresh     []typedVal
 	loadLog        map[string]loadedArr
 	axiomDone      map[string]bool
+	axiomConds     []string // branch conditions selecting the array version being axiomatised
 	assertDone     map[string]bool
 	assertCtr      map[string]int
 }
@@ -525,22 +526,25 @@ func (u *UnitGen) heapAxiom(st *State, key string, arr Term) {
 		if u.axiomDone == nil {
 			u.axiomDone = map[string]bool{}
 		}
-		if u.axiomDone[arr.S] || strings.Contains(arr.S, " ") {
+		if u.axiomDone[arr.S+"|"+strings.Join(u.axiomConds, "&")] || strings.Contains(arr.S, " ") {
 			return
 		}
-		u.axiomDone[arr.S] = true
+		u.axiomDone[arr.S+"|"+strings.Join(u.axiomConds, "&")] = true
 		if !u.patternSafe(arr.S) {
-			pfx := mangle(key)
-			for _, tok := range strings.FieldsFunc(u.defs[arr.S], func(r rune) bool { return r == ' ' || r == '(' || r == ')' }) {
-				if strings.HasPrefix(tok, pfx) && tok != arr.S {
-					u.heapAxiom(st, key, Term{tok, arr.Sort})
-				}
+			// a merged version (ite of arrays): state the axiom for each version it is built from,
+			// under the condition that selects that version
+			if c, a, b, ok := iteParts(u.defs[arr.S]); ok {
+				u.axiomConds = append(u.axiomConds, c)
+				u.heapAxiom(st, key, Term{a, arr.Sort})
+				u.axiomConds[len(u.axiomConds)-1] = "(not " + c + ")"
+				u.heapAxiom(st, key, Term{b, arr.Sort})
+				u.axiomConds = u.axiomConds[:len(u.axiomConds)-1]
 			}
 			return
 		}
 		kv := Term{"hx_k", SInt}
 		sel := fmt.Sprintf("(select (select %s hx_r) hx_k)", arr.S)
-		u.assumeStructural(Term{fmt.Sprintf("(forall ((hx_r Int) (hx_k Int)) (! (=> %s %s) :pattern (%s)))", sel, u.typeFacts(st, kv, kt).S, sel), SBool})
+		u.assumeStructural(Term{fmt.Sprintf("(forall ((hx_r Int) (hx_k Int)) (! (=> %s %s) :pattern (%s)))", u.underAxiomConds(sel), u.typeFacts(st, kv, kt).S, sel), SBool})
 		return
 	}
 	ty, ok := u.keyType[key]
@@ -550,17 +554,21 @@ func (u *UnitGen) heapAxiom(st *State, key string, arr Term) {
 	if u.axiomDone == nil {
 		u.axiomDone = map[string]bool{}
 	}
-	if u.axiomDone[arr.S] || strings.Contains(arr.S, " ") {
+	if u.axiomDone[arr.S+"|"+strings.Join(u.axiomConds, "&")] || strings.Contains(arr.S, " ") {
 		return
 	}
-	u.axiomDone[arr.S] = true
+	u.axiomDone[arr.S+"|"+strings.Join(u.axiomConds, "&")] = true
 	if !u.patternSafe(arr.S) {
-		// a merged version (ite of arrays): state the axiom for the versions it is built from
-		pfx := mangle(key)
-		for _, tok := range strings.FieldsFunc(u.defs[arr.S], func(r rune) bool { return r == ' ' || r == '(' || r == ')' }) {
-			if strings.HasPrefix(tok, pfx) && tok != arr.S {
-				u.heapAxiom(st, key, Term{tok, arr.Sort})
-			}
+		// a merged version (ite of arrays): state the axiom for each version it is built from, under
+		// the condition that selects that version. (A version created on one branch is not bounded
+		// by the allocation frontier of the other branch: stating its axiom unconditionally with the
+		// merged frontier made the other branch contradictory.)
+		if c, a, b, ok := iteParts(u.defs[arr.S]); ok {
+			u.axiomConds = append(u.axiomConds, c)
+			u.heapAxiom(st, key, Term{a, arr.Sort})
+			u.axiomConds[len(u.axiomConds)-1] = "(not " + c + ")"
+			u.heapAxiom(st, key, Term{b, arr.Sort})
+			u.axiomConds = u.axiomConds[:len(u.axiomConds)-1]
 		}
 		return
 	}
@@ -571,7 +579,7 @@ func (u *UnitGen) heapAxiom(st *State, key string, arr Term) {
 		if f.S == "true" {
 			return
 		}
-		u.assumeStructural(Term{fmt.Sprintf("(forall ((hx_r Int) (hx_k %s)) (! %s :pattern (%s)))", ks, u.allocGuard(st, f.S), el.S), SBool})
+		u.assumeStructural(Term{fmt.Sprintf("(forall ((hx_r Int) (hx_k %s)) (! %s :pattern (%s)))", ks, u.underAxiomCondsImp(u.allocGuard(st, f.S)), el.S), SBool})
 		return
 	}
 	if !strings.HasPrefix(key, "H:") && !strings.HasPrefix(key, "C:") {
@@ -584,7 +592,39 @@ func (u *UnitGen) heapAxiom(st *State, key string, arr Term) {
 	}
 	// only allocated objects: the fields of addresses at or above top are the values a later
 	// allocation (by a callee's contract) will be found to hold
-	u.assumeStructural(Term{fmt.Sprintf("(forall ((hx_r Int)) (! %s :pattern (%s)))", u.allocGuard(st, f.S), el.S), SBool})
+	u.assumeStructural(Term{fmt.Sprintf("(forall ((hx_r Int)) (! %s :pattern (%s)))", u.underAxiomCondsImp(u.allocGuard(st, f.S)), el.S), SBool})
+}
+
+// underAxiomConds conjoins the branch conditions under which the array version being
+// axiomatised is the current one.
+func (u *UnitGen) underAxiomConds(f string) string {
+	if len(u.axiomConds) == 0 {
+		return f
+	}
+	return "(and " + strings.Join(u.axiomConds, " ") + " " + f + ")"
+}
+
+func (u *UnitGen) underAxiomCondsImp(f string) string {
+	if len(u.axiomConds) == 0 {
+		return f
+	}
+	return "(=> (and " + strings.Join(u.axiomConds, " ") + " true) " + f + ")"
+}
+
+// iteParts splits "(ite c a b)" where a and b are plain names.
+func iteParts(def string) (c, a, b string, ok bool) {
+	if !strings.HasPrefix(def, "(ite ") || !strings.HasSuffix(def, ")") {
+		return
+	}
+	body := def[5 : len(def)-1]
+	c = firstSexp(body)
+	rest := strings.TrimSpace(body[len(c):])
+	a = firstSexp(rest)
+	b = strings.TrimSpace(rest[len(a):])
+	if c == "" || a == "" || b == "" || strings.ContainsAny(a, " ()") || strings.ContainsAny(b, " ()") {
+		return "", "", "", false
+	}
+	return c, a, b, true
 }
 
 // allocGuard restricts a well-typedness fact that bounds a pointer by the allocation frontier to
